@@ -247,6 +247,8 @@ class Interp:
         self.steps = 0
         self.budget = step_budget
         self.unmodelled = {}
+        self.visited = set()      # keys of functions whose body was executed at least once
+        self.site_ok = {}         # (fn key, line) -> AND of the obligations recorded at that source line
         self.call_depth = 0
         self.notes = []
         self._ipd = {}
@@ -255,6 +257,8 @@ class Interp:
     # ------------------------------------------------------------------ obligations
     def record(self, fv, kind, detail, line, ok, why=""):
         key = (fv.f["key"], kind, detail)
+        sk = (fv.f["key"], line)
+        self.site_ok[sk] = self.site_ok.get(sk, True) and ok
         o = self.obl.get(key)
         if o is None:
             self.obl[key] = Obligation(fv.f, kind, detail, fv.loc(line), ok, why + ((" [root: %s]" % getattr(self, "current_root", "?")) if not ok else ""))
@@ -269,17 +273,30 @@ class Interp:
         r = INT_TYPES.get(ty)
         if r:
             return ("i", r[0], r[1])
-        m = re.match(r"^\[(.*); (\d+)\]$", ty)
+        m = re.match(r"^\[(.*); ([\w:]+)\]$", ty)
         if m and depth < 4:
-            n = int(m.group(2))
-            if n <= 512:
+            n = self.F.named_len(m.group(2))
+            if n is not None and n <= 512:
                 e = self.default_value(m.group(1), depth + 1)
                 return ("arr", (e,) * n)
         if ty.startswith("(") and ty.endswith(")") and depth < 4:
             parts = split_top(ty[1:-1])
             if parts != [""]:
                 return ("st", tuple(self.default_value(p.strip(), depth + 1) for p in parts))
-        a = self.F.adts.get(re.sub(r"<.*", "", ty))
+        m = re.match(r"^core::(result::Result|option::Option|ops::ControlFlow)<(.*)>$", ty)
+        if m and depth < 4:
+            parts = [p.strip() for p in split_top(m.group(2))]
+            if m.group(1) == "option::Option" and len(parts) == 1:
+                return ("en", ((0, ()), (1, (self.default_value(parts[0], depth + 1),))))
+            if m.group(1) == "result::Result" and len(parts) == 2:
+                return ("en", ((0, (self.default_value(parts[0], depth + 1),)), (1, (self.default_value(parts[1], depth + 1),))))
+        m = re.match(r"^(?:\w+::)*generic_array::GenericArray<(.*)>$", ty)
+        if m and depth < 4:
+            parts = split_top(m.group(1))
+            n = typenum_value(parts[1].strip()) if len(parts) == 2 else None
+            if n is not None and n <= 512:
+                return ("arr", (self.default_value(parts[0].strip(), depth + 1),) * n)
+        a = self.F.adt_of(ty)
         if a and a["kind"] == "Struct" and depth < 4 and a.get("n_generics", 0) == 0:
             return ("st", tuple(self.default_value(f["ty"], depth + 1) for f in a["variants"][0]["fields"]))
         return TOP
@@ -295,6 +312,8 @@ class Interp:
                 elif v[0] == "en" and len(v[1]) == 1:
                     fs = v[1][0][1]
                     v = fs[step[1]] if step[1] < len(fs) else TOP
+                elif v[0] == "clo":
+                    v = v[2][step[1]] if step[1] < len(v[2]) else TOP
                 else:
                     return TOP
             elif step[0] == "i":
@@ -424,12 +443,9 @@ class Interp:
 
     def read_place(self, st, depth, pl):
         foc = st.frames[depth].get("__focus")
-        if foc and len(pl[1]) == 1 and isinstance(pl[1][0], list) and pl[1][0][0] == "i":
-            fv_ = st.frames[depth].get("__fv")
-            il = pl[1][0][1]
-            if fv_ is not None:
-                il = self.copy_source(fv_, il)
-            hit = dict(foc).get((pl[0], il))
+        if foc:
+            key = self.focus_key(st.frames[depth].get("__fv"), pl)
+            hit = dict(foc).get(key) if key is not None else None
             if hit is not None:
                 return hit
         r = self.resolve_place(st, depth, pl)
@@ -437,6 +453,16 @@ class Interp:
             return TOP
         d, l, path = r
         return self.read_path(st.frames[d].get(l, TOP), path)
+
+    def focus_key(self, fv, pl):
+        """key of an element place `arr[i]` or `(*p)[i]` whose value was narrowed by a comparison (valid until arr / p / i is reassigned)"""
+        pr = pl[1]
+        cs = (lambda l: self.copy_source(fv, l)) if fv is not None else (lambda l: l)
+        if len(pr) == 1 and isinstance(pr[0], list) and pr[0][0] == "i":
+            return (pl[0], cs(pr[0][1]))
+        if len(pr) == 2 and pr[0] == "*" and isinstance(pr[1], list) and pr[1][0] == "i":
+            return (pl[0], "*", cs(pr[1][1]))
+        return None
 
     def write_place(self, st, depth, pl, val):
         r = self.resolve_place(st, depth, pl)
@@ -488,7 +514,7 @@ class Interp:
         have_ty, want_ty = norm_ty(have_ty), norm_ty(want_ty)
         if have_ty == want_ty:
             return val
-        a = self.F.adts.get(re.sub(r"<.*", "", want_ty))
+        a = self.F.adt_of(want_ty)
         if a and a["kind"] == "Struct" and len(a["variants"][0]["fields"]) == 1:
             inner = self.wrap_for_type(val, have_ty, a["variants"][0]["fields"][0]["ty"], depth + 1)
             return ("st", (inner,))
@@ -893,16 +919,16 @@ class Interp:
     def call_fn(self, f, args, st, depth_caller, tyenv=None):
         """execute local function f with abstract args; returns (ret value, state)"""
         fv = view(self.F, f)
+        self.visited.add(f["key"])
         self.call_depth += 1
         if self.call_depth > 60:
             self.call_depth -= 1
+            self.cutoffs = getattr(self, "cutoffs", [])
+            self.cutoffs.append(f["path"])     # reported by the driver as an analysis error (the body was not analysed in this context)
             return TOP
         frame = {}
         n = fv.nargs
         spread = fv.m.get("spread_arg")
-        if f["kind"] == "Closure" and spread is None and len(args) == 2 and args[1][0] == "st" and len(args[1][1]) == n - 1:
-            # "rust-call" ABI: (env, (a, b, ..)) -> env, a, b, ..
-            args = [args[0]] + list(args[1][1])
         for i in range(n):
             pi = i + 1
             if spread is not None and pi >= spread:
@@ -915,6 +941,22 @@ class Interp:
             frame["__ty"] = tuple(sorted(tyenv.items()))
         st.frames.append(frame)
         depth = len(st.frames) - 1
+        for pi in range(1, n + 1):
+            # a parameter whose (pointee) value is unknown is at least a value of its declared type
+            v = frame.get(pi, TOP)
+            pty = fv.locals[pi]["ty"]
+            if v[0] == "top" or (v[0] == "ref" and self.deref_val(st, v)[0] == "top"):
+                mref = re.match(r"^&('\w+ )?(mut )?(.*)$", pty)
+                if mref is None:
+                    d = self.default_value(subst_ty(pty, tyenv) if tyenv else pty)
+                    if d[0] != "top":
+                        frame[pi] = d
+                elif not re.match(r"^\[[^;]*\]$", mref.group(3)):
+                    d = self.default_value(subst_ty(mref.group(3), tyenv) if tyenv else mref.group(3))
+                    if d[0] != "top":
+                        # the referent lives in the root frame: the callee may return a reference derived from it
+                        st.frames[0][("p", f["key"], pi)] = d
+                        frame[pi] = ("ref", 0, ("p", f["key"], pi), ())
         ret = self.run_region(fv, st, depth, 0, None, {})
         st.frames.pop()
         self.call_depth -= 1
@@ -1017,22 +1059,7 @@ class Interp:
                     self.refine_assert(st, depth, fv, t)
                 cur = t["target"]
             elif k == "switch":
-                d = self.deconst(self.operand(st, depth, fv, t["discr"]))
-                targets = t["targets"]
-                feas = []
-                if d[0] == "i":
-                    covered = set()
-                    for v, tb in targets:
-                        if d[1] <= v <= d[2]:
-                            feas.append((v, tb))
-                        covered.add(v)
-                    # otherwise feasible if some value in [lo,hi] not listed
-                    span = d[2] - d[1] + 1
-                    listed_in = sum(1 for v in covered if d[1] <= v <= d[2])
-                    if span > listed_in:
-                        feas.append(("otherwise", t["otherwise"]))
-                else:
-                    feas = [(v, tb) for v, tb in targets] + [("otherwise", t["otherwise"])]
+                feas = self.feasible_arms(st, depth, fv, t)
                 if len(feas) == 1:
                     self.refine_switch(st, depth, fv, t, feas[0][0])
                     cur = feas[0][1]
@@ -1076,6 +1103,56 @@ class Interp:
                 if not outs:
                     frame["__dead"] = True
                     return ret
+                if join_at is not None and 1 < len(outs) <= 4 and not loopctx.get("in_fix") and loopctx.get("splits", 0) < 2:
+                    # trace partitioning: the arms assigned distinct constants to a user variable (`let w = if .. {6} else if .. {7} else {8}`):
+                    # analyse the continuation once per arm instead of joining the constants into an interval
+                    def small(o, l):
+                        v = o.frames[depth].get(l)
+                        return (v[1], v[2]) if v is not None and v[0] == "i" and v[2] - v[1] < 4 else None
+                    cand = []
+                    for l in outs[0].frames[depth]:
+                        if isinstance(l, int) and fv.locals[l].get("name") and all(small(o, l) is not None for o in outs):
+                            rs = [small(o, l) for o in outs]
+                            vals = set()
+                            for a_, b_ in rs:
+                                vals |= set(range(a_, b_ + 1))
+                            if len(set(rs)) > 1 and len(vals) <= 8:
+                                cand.append(l)
+                    if cand:
+                        l0 = cand[0]
+                        split = []
+                        for o in outs:
+                            a_, b_ = small(o, l0)
+                            for v_ in range(a_, b_ + 1):
+                                o2 = o.copy() if a_ != b_ else o
+                                o2.frames[depth][l0] = I(v_)
+                                split.append(o2)
+                        outs = split
+                    if cand:
+                        inner = [h for h, body in L.items() if join_at in body]
+                        H = min(inner, key=lambda h: len(L[h])) if inner else None
+                        target = H if H is not None else stop
+                        ctx = dict(loopctx)
+                        ctx["splits"] = loopctx.get("splits", 0) + 1
+                        outs2 = []
+                        for o in outs:
+                            r = self.run_region(fv, o, depth, join_at, target, ctx)
+                            if r is not None:
+                                ret = join(ret, r) if ret is not None else r
+                            if not o.frames[depth].get("__dead"):
+                                outs2.append(o)
+                        if not outs2:
+                            frame["__dead"] = True
+                            return ret
+                        js = outs2[0]
+                        for o in outs2[1:]:
+                            js = js.join_with(o)
+                        st.frames[:] = js.frames
+                        frame = st.frames[depth]
+                        if target == stop:
+                            return ret
+                        cur = target
+                        continue
                 js = outs[0]
                 for o in outs[1:]:
                     js = js.join_with(o)
@@ -1095,6 +1172,34 @@ class Interp:
             else:
                 frame["__dead"] = True
                 return ret
+
+    def feasible_arms(self, st, depth, fv, t):
+        """[(value | 'otherwise', target block)] of a SwitchInt that the abstract discriminant allows"""
+        d = self.deconst(self.operand(st, depth, fv, t["discr"]))
+        targets = t["targets"]
+        feas = []
+        if d[0] == "i":
+            covered = set()
+            for v, tb in targets:
+                if d[1] <= v <= d[2]:
+                    feas.append((v, tb))
+                covered.add(v)
+            if (d[2] - d[1] + 1) > sum(1 for v in covered if d[1] <= v <= d[2]):
+                feas.append(("otherwise", t["otherwise"]))
+        else:
+            feas = [(v, tb) for v, tb in targets] + [("otherwise", t["otherwise"])]
+        if t["discr"][0] in ("c", "m") and not t["discr"][1][1]:
+            dds = fv.defs.get(t["discr"][1][0], [])
+            if len(dds) == 1 and dds[0].kind == "assign" and dds[0].rv[0] == "disc":
+                ev = self.read_place(st, depth, dds[0].rv[1])
+                if ev[0] == "ord":
+                    # Ordering: only the outcomes the comparison can produce
+                    allowed = {255 if x < 0 else x for x in ev[1]}
+                    listed = {v for v, _ in targets}
+                    feas = [(v, tb) for v, tb in targets if v in allowed]
+                    if allowed - listed:
+                        feas.append(("otherwise", t["otherwise"]))
+        return feas
 
     def side_facts_on_assign(self, frame, s):
         dst = s[1]
@@ -1236,7 +1341,7 @@ class Interp:
         while inv is not None:
             rounds += 1
             if rounds > 60:
-                raise Budget("loop did not stabilise")
+                raise Budget("loop did not stabilise (%s, header bb%d)" % (fv.f["path"][-60:], header))
             if rounds > 12 and __import__("os").environ.get("ABSINT_DEBUG"):
                 pass
             s = inv.copy()
@@ -1368,18 +1473,7 @@ class Interp:
                     return None
                 cur = nxt
             elif k == "switch":
-                d = self.deconst(self.operand(s, depth, fv, t["discr"]))
-                feas = []
-                if d[0] == "i":
-                    covered = set()
-                    for v, tb in t["targets"]:
-                        if d[1] <= v <= d[2]:
-                            feas.append((v, tb))
-                        covered.add(v)
-                    if (d[2] - d[1] + 1) > sum(1 for v in covered if d[1] <= v <= d[2]):
-                        feas.append(("otherwise", t["otherwise"]))
-                else:
-                    feas = list(t["targets"]) + [("otherwise", t["otherwise"])]
+                feas = self.feasible_arms(s, depth, fv, t)
                 if len(feas) == 1:
                     self.refine_switch(s, depth, fv, t, feas[0][0])
                     cur = feas[0][1]
@@ -1494,18 +1588,7 @@ class Interp:
                     return None
                 cur = nxt
             elif k == "switch":
-                d = self.deconst(self.operand(s, depth, fv, t["discr"]))
-                feas = []
-                if d[0] == "i":
-                    covered = set()
-                    for v, tb in t["targets"]:
-                        if d[1] <= v <= d[2]:
-                            feas.append((v, tb))
-                        covered.add(v)
-                    if (d[2] - d[1] + 1) > sum(1 for v in covered if d[1] <= v <= d[2]):
-                        feas.append(("otherwise", t["otherwise"]))
-                else:
-                    feas = list(t["targets"]) + [("otherwise", t["otherwise"])]
+                feas = self.feasible_arms(s, depth, fv, t)
                 if len(feas) == 1:
                     self.refine_switch(s, depth, fv, t, feas[0][0])
                     cur = feas[0][1]
@@ -1739,10 +1822,10 @@ class Interp:
             return
         if not pl[1]:
             st.frames[depth][pl[0]] = new
-        elif len(pl[1]) == 1 and isinstance(pl[1][0], list) and pl[1][0][0] == "i":
+        elif self.focus_key(fv, pl) is not None:
             foc = dict(st.frames[depth].get("__focus", ()))
-            foc[(pl[0], self.copy_source(fv, pl[1][0][1]))] = new
-            st.frames[depth]["__focus"] = tuple(sorted(foc.items()))
+            foc[self.focus_key(fv, pl)] = new
+            st.frames[depth]["__focus"] = tuple(sorted(foc.items(), key=repr))
             st.frames[depth]["__fv"] = fv
 
     def refine_assert(self, st, depth, fv, t):
@@ -1791,7 +1874,7 @@ class Interp:
         except Exception:
             return "?"
 
-    def run_root(self, f, values, colls=False):
+    def run_root(self, f, values, colls=False, tyenv=None):
         """values: list of abstract values, one per parameter; parameters of reference type receive a reference to a
         root-frame slot holding the value.  Returns (ret, root frame after the call)."""
         fv = view(self.F, f)
@@ -1799,6 +1882,10 @@ class Interp:
         args = []
         for i, v in enumerate(values):
             ty = fv.locals[i + 1]["ty"]
+            if v[0] == "__coll_vals":
+                # an abstract owning iterator: any number of items, each satisfying the element invariant
+                args.append(("it", "vecvals", ("vec", v[1], 0, v[2])))
+                continue
             if v[0] in ("__coll_iter", "__coll_slice"):
                 # an abstract collection: elements live in a vector summary in the root frame
                 elem, nhi = v[1], v[2]
@@ -1821,7 +1908,7 @@ class Interp:
                 args.append(v)
         self.call_depth = 0
         self.current_root = f["path"].replace("curve25519_dalek::", "")[-60:]
-        ret = self.call_fn(f, args, st, 0)
+        ret = self.call_fn(f, args, st, 0, tyenv)
         return ret, st.frames[0]
 
     def ops_text(self, st, depth, fv, ops):
@@ -1870,6 +1957,10 @@ class Interp:
                 res = r
                 handled = True
         if not handled and g is not None and "mir" in g:
+            if g["kind"] == "Closure" and len(args) == 2 and args[1][0] == "st" and view(F, g).m.get("spread_arg") is None \
+                    and len(args[1][1]) == view(F, g).nargs - 1:
+                # "rust-call" ABI: (env, (a, b, ..)) -> env, a, b, ..
+                args = [args[0]] + list(args[1][1])
             res = self.call_local(g, args, st, depth, callee_env)
             handled = True
         if not handled:
@@ -1879,16 +1970,34 @@ class Interp:
                 if c[0] == "clo":
                     cf = F.fns.get(c[1])
                     if cf and "mir" in cf:
-                        res = self.call_local(cf, [args[0]] + args[1:], st, depth)
+                        cargs = [args[0]] + args[1:]
+                        cn = view(F, cf).nargs
+                        if view(F, cf).m.get("spread_arg") is None and len(cargs) == 2 and cargs[1][0] == "st" and len(cargs[1][1]) == cn - 1:
+                            # "rust-call" ABI: (env, (a, b, ..)) -> env, a, b, ..
+                            cargs = [cargs[0]] + list(cargs[1][1])
+                        res = self.call_local(cf, cargs, st, depth)
                         handled = True
         if not handled:
             self.unmodelled[n] = self.unmodelled.get(n, 0) + 1
             res = self.default_value(dty)
+            mref = re.match(r"^&('\w+ )?(mut )?(.*)$", dty)
+            if res[0] == "top" and mref and not re.match(r"^\[[^;]*\]$", mref.group(3)):
+                # reference returned by an unknown callee: a fresh referent (one per call site, in the root frame) of the most general value of its type
+                pv = self.default_value(mref.group(3))
+                if pv[0] != "top":
+                    slot = ("x", fv.f["key"], t["line"], dst[0])
+                    st.frames[0][slot] = pv
+                    res = ("ref", 0, slot, ())
             # unknown callee may write through &mut arguments
-            for a in args:
-                if a[0] == "ref":
-                    cur = self.read_path(st.frames[a[1]].get(a[2], TOP), a[3])
-                    self.havoc(st, a)
+            atys = t.get("arg_tys") or []
+            for ai, a in enumerate(args):
+                shared = ai < len(atys) and re.match(r"^&('\w+ )?(?!mut )", atys[ai]) and not re.search(r"Cell|Mutex|Atomic", atys[ai])
+                if a[0] in ("ref", "sl") and not shared:
+                    self.havoc(st, ("ref", a[1], a[2], a[3]))
+        rx = getattr(self, "must_record_rx", None)
+        if rx is not None and g is None and (fv.f["key"], t["line"]) not in self.site_ok and (rx.search(n) or rx.search(t.get("callee_full") or "")):
+            # a panic-capable library call was executed but no model recorded an obligation for it: not discharged
+            self.record(fv, "call:" + n.split("::")[-1][:40], self.assert_detail_call(fv, t), t["line"], False, "panic-capable library call without a model obligation")
         if diverges:
             return None
         if res is None:
@@ -1928,6 +2037,29 @@ class Interp:
         return c[key]
 
     def call_local(self, g, args, st, depth, tyenv=None):
+        """value partitioning on a small-range integer argument (window width, radix): the callee is analysed once per value"""
+        if getattr(self, "_split_depth", 0) < 2 and view(self.F, g).nb > 8:
+            for i, a in enumerate(args):
+                if a[0] == "i" and 0 < a[2] - a[1] < 8:
+                    self._split_depth = getattr(self, "_split_depth", 0) + 1
+                    try:
+                        base = st.copy()
+                        outs, ret = [], None
+                        for v in range(a[1], a[2] + 1):
+                            s2 = base.copy()
+                            r = self.call_local1(g, args[:i] + [I(v)] + args[i + 1:], s2, depth, tyenv)
+                            ret = r if ret is None else join(ret, r)
+                            outs.append(s2)
+                        js = outs[0]
+                        for o in outs[1:]:
+                            js = js.join_with(o)
+                        st.frames[:] = js.frames
+                        return ret
+                    finally:
+                        self._split_depth -= 1
+        return self.call_local1(g, args, st, depth, tyenv)
+
+    def call_local1(self, g, args, st, depth, tyenv=None):
         """execute a local callee; memoised on the abstract arguments (with pointee values for references)"""
         tr = __import__("os").environ.get("ABSINT_TRACE")
         if tr and re.search(tr, g["path"]):
@@ -1945,7 +2077,8 @@ class Interp:
                 refs.append(a)
             else:
                 key_args.append(a)
-        pure = not any(self.contains_ref(x) for x in key_args if x and x[0] not in ("R", "S"))
+        pure = not any(self.contains_ref(x) for x in key_args if x and x[0] not in ("R", "S")) \
+            and not any(self.contains_ref(x[1]) for x in key_args if x and x[0] in ("R", "S"))
         key = (g["key"], tuple(key_args), tuple(sorted(tyenv.items())) if tyenv else None)
         if pure:
             try:
@@ -1993,6 +2126,19 @@ class Interp:
         if v[0] == "vec":
             return self.contains_ref(v[1])
         return False
+
+
+def typenum_value(t):
+    """decode typenum's binary type-level integers: UInt<UInt<UTerm, B1>, B0> = 2"""
+    t = re.sub(r"\b\w+::", "", t.replace(" ", ""))
+    if t == "UTerm":
+        return 0
+    m = re.match(r"^UInt<(.*),B([01])>$", t)
+    if m:
+        hi = typenum_value(m.group(1))
+        return None if hi is None else 2 * hi + int(m.group(2))
+    m = re.match(r"^U(\d+)$", t)
+    return int(m.group(1)) if m else None
 
 
 def norm_ty(t):
